@@ -183,7 +183,7 @@ def digest_c13(res, ep, tree, fname):
 
 
 def digest_c19(obs, cdir):
-    head = {"ok": "O", "err": "E", "panic": "P"}[obs["cls"]]
+    head = "P" if obs["cls"] == "panic" else "N"
     execs = bsorted(["touch %s/%s" % (cdir, c) for c in obs["canaries"]])
     return [head, "ENV"] + denv(obs.get("envset") or {}) + ["EXEC"] + dlist(execs)
 
@@ -490,7 +490,7 @@ def shrink_tree(tool, ctx, case, kindname, fails, rounds=40):
     for _ in range(rounds):
         cands = []
         for t in deletions(cur["tree"]):
-            c = {k: v for k, v in cur.items() if k in ("kind", "stream", "planted", "mut")}
+            c = {k: v for k, v in cur.items() if k in ("kind", "stream", "planted", "mut", "cdir")}
             c["tree"] = t
             cands.append(c)
             if len(cands) >= 300:
